@@ -99,6 +99,11 @@ func (r *persistRunner) open() {
 		if e != nil {
 			panic(e)
 		}
+		// the list of shard ids handed out belongs to the caller: writing into it must not change the provider
+		ids := idp.GetShardIDs()
+		for i := range ids {
+			ids[i] = 0
+		}
 		r.p, err = sharded.NewShardedPersister(r.dir, &simpleCreator{r.kind, r.batch, r.delay}, idp)
 	} else {
 		r.p, err = openPersister(r.kind, r.dir, r.delay, r.batch)
